@@ -10,10 +10,14 @@ import (
 	"verif/internal/core"
 	"verif/internal/muxdiff"
 	"verif/internal/pattern"
+	"verif/internal/sched"
 	"verif/internal/subs"
 )
 
 var checks = map[string]func(*core.Ctx){
+	"C01": sched.Run,
+	"C02": sched.Run,
+	"C03": sched.Run,
 	"C06": muxdiff.Run,
 	"C09": subs.Run,
 	"C17": pattern.Run,
@@ -23,6 +27,10 @@ func main() {
 	if len(os.Args) < 2 {
 		fmt.Println("usage: engine <property> [--tier quick|thorough] [--replay path]")
 		os.Exit(2)
+	}
+	if os.Args[1] == "__sched" && len(os.Args) == 4 {
+		sched.ChildMain(os.Args[2], os.Args[3])
+		return
 	}
 	prop := os.Args[1]
 	tier, replay := "", ""
